@@ -339,11 +339,48 @@ func (pc *pCtx) p7Lockset(s *pSite, wantRaces, wantOrder bool) {
 				inCtxs[fn][fmt.Sprintf("%d:%s", ci, cd.name)] = true
 			}
 		}
-		var fns []*ssa.Function
-		for fn, cs := range inCtxs {
-			if len(cs) >= 2 {
-				fns = append(fns, fn)
+		// what each context writes and whether it talks to the downstream
+		writes := map[string]map[*ssa.Alloc]bool{}
+		delivers := map[string]bool{}
+		for ci, cd := range ctxs {
+			if cd.name == "teardown" {
+				continue
 			}
+			cn := fmt.Sprintf("%d:%s", ci, cd.name)
+			writes[cn] = map[*ssa.Alloc]bool{}
+			for fn := range cd.fns {
+				for _, b := range fn.Blocks {
+					for _, ins := range b.Instrs {
+						for _, tgt := range s.writeTargets(ins) {
+							if al, ok := tgt.(*ssa.Alloc); ok {
+								writes[cn][al] = true
+							}
+						}
+						if call, ok := ins.(*ssa.Call); ok && call.Common().IsInvoke() && s.isDest(call.Common().Value) {
+							delivers[cn] = true
+						}
+					}
+				}
+			}
+		}
+		// competitor: another context that refills or takes the same cell and also reaches the downstream
+		competitor := func(fn *ssa.Function, al *ssa.Alloc) string {
+			if len(inCtxs[fn]) >= 2 {
+				return fmt.Sprintf("the function runs in %d concurrent contexts", len(inCtxs[fn]))
+			}
+			for cn := range writes {
+				if inCtxs[fn][cn] {
+					continue
+				}
+				if writes[cn][al] && delivers[cn] {
+					return "the context " + strings.SplitN(cn, ":", 2)[1] + " also takes or refills it and calls the downstream"
+				}
+			}
+			return ""
+		}
+		var fns []*ssa.Function
+		for fn := range inCtxs {
+			fns = append(fns, fn)
 		}
 		sort.Slice(fns, func(i, j int) bool { return funcKey(fns[i]) < funcKey(fns[j]) })
 		for _, fn := range fns {
@@ -399,15 +436,36 @@ func (pc *pCtx) p7Lockset(s *pSite, wantRaces, wantOrder bool) {
 							back(t.X, d+1)
 						case *ssa.Extract:
 							back(t.Tuple, d+1)
+						case *ssa.Call:
+							// a value built from the arguments (lo.T2(*a, *b), a conversion helper)
+							if !t.Common().IsInvoke() {
+								for _, a := range t.Common().Args {
+									back(a, d+1)
+								}
+							}
+						case *ssa.BinOp:
+							back(t.X, d+1)
+							back(t.Y, d+1)
+						case *ssa.Index:
+							back(t.X, d+1)
+						case *ssa.Lookup:
+							back(t.X, d+1)
 						}
 					}
 					back(val, 0)
 					ok2 := true
 					note := ""
+					relevant := false
 					for _, ld := range loads {
 						if ld.Parent() != fn {
 							continue
 						}
+						al, _ := s.root(ld.X).(*ssa.Alloc)
+						why := competitor(fn, al)
+						if why == "" {
+							continue
+						}
+						relevant = true
 						common := false
 						for l := range ls[ld] {
 							if ls[ins][l] {
@@ -417,9 +475,12 @@ func (pc *pCtx) p7Lockset(s *pSite, wantRaces, wantOrder bool) {
 						for l := range ls[ld] {
 							if !common && !ls[ins][l] {
 								ok2 = false
-								note = fmt.Sprintf("%s takes %s under %s (%s) and delivers it after the lock is released (%s); the function runs in %d concurrent contexts, so a later take can be delivered first", funcKey(fn), cellName(s.root(ld.X)), cellName(l), pc.pos(ld.Pos()), pc.pos(ins.Pos()), len(inCtxs[fn]))
+								note = fmt.Sprintf("%s takes %s under %s (%s) and delivers it after the lock is released (%s); %s, so a later take (or a terminal notification) can reach the downstream first", funcKey(fn), cellName(s.root(ld.X)), cellName(l), pc.pos(ld.Pos()), pc.pos(ins.Pos()), why)
 							}
 						}
+					}
+					if !relevant && len(inCtxs[fn]) < 2 {
+						continue
 					}
 					pc.add(oprops, fmt.Sprintf("P11/%s/%s/delivery#%d-keeps-the-order-of-the-takes", s.Name, strings.TrimPrefix(funcKey(fn), funcKey(s.Top)), n),
 						"a value taken from shared state under a lock by a function that runs in two or more concurrent contexts is delivered downstream before that lock is released (or under another lock that orders take and delivery)", ok2, note, pc.pos(ins.Pos()))
